@@ -24,8 +24,20 @@ def size(shape):
     return n
 
 
+CMP_STYLES = {"ge": lambda a, b: a >= b, "gt": lambda a, b: a > b, "le": lambda a, b: a <= b, "lt": lambda a, b: a < b,
+              "eq": lambda a, b: a == b, "ne": lambda a, b: a != b}
+
+
 def mk_array(s, kind, shape, style="vars"):
     n = size(shape)
+    if kind == "B" and style in CMP_STYLES:      # boolean array whose elements are comparison nodes (built elementwise by the library)
+        a = mk_array(s, "I", shape)
+        b = mk_array(s, "I", shape)
+        return CMP_STYLES[style](a, b)
+    if kind == "B" and style in ("iff", "xor"):
+        a = mk_array(s, "B", shape)
+        b = mk_array(s, "B", shape)
+        return (a == b) if style == "iff" else (a ^ b)
     if kind == "B":
         items = [s.bool_var() for _ in range(n)] if style == "vars" else [s.bool_var() | s.bool_var() for _ in range(n)]
         return BoolArray1D(items) if len(shape) == 1 else BoolArray2D(items, shape)
@@ -40,6 +52,8 @@ def operand(s, form, kind, shape):
         return mk_array(s, kind, shape)
     if form == "arrx":
         return mk_array(s, kind, shape, "expr")
+    if form.startswith("arr:"):
+        return mk_array(s, kind, shape, form[4:])
     if form == "var":
         return s.bool_var() if kind == "B" else s.int_var(-3, 3)
     if form == "expr":
@@ -160,7 +174,7 @@ def part_elementwise(ctx):
                 ctx.equal_all(name, out.data, exp, rk, env, payload)
         # unary
         for opname, kind, pf, zf in (("~", "B", lambda a: ~a, lambda a: z3.Not(a)), ("neg", "I", lambda a: -a, lambda a: -a)):
-            for form in ("arr", "arrx"):
+            for form in (("arr", "arrx") + (tuple("arr:" + k for k in list(CMP_STYLES) + ["iff", "xor"]) if kind == "B" else ())):
                 s = Solver()
                 a = operand(s, form, kind, shape)
                 name = "%s/%s/%s" % (opname, "x".join(map(str, shape)), form)
